@@ -37,6 +37,9 @@ def sparse_identical(a, b):
     return None
 
 
+T_ALT = {"[0.2]": "[0.35]", "[0.1, 0.3]": "[0.15, 0.45]", "linspace(0.2, 0.6, 3)": "linspace(0.3, 0.9, 3)"}
+
+
 def judge_grid(case):
     from molgri.io import GridWriter, GridReader
     d = tempfile.mkdtemp(prefix="c20-")
@@ -71,6 +74,23 @@ def judge_grid(case):
         n = len(want["array"])
         if got["volumes"].shape != (n,) or got["borders"].shape != (n, n):
             msgs.append("saved shapes inconsistent with the grid size")
+        # what was read belongs to the caller: writing another grid to the same paths afterwards (the scripts reuse their
+        # output names) must not change the arrays that were read before
+        if not msgs:
+            with quiet():
+                w2 = GridWriter(case["b"], case["o"], T_ALT.get(case["t"], "[0.77]"), factor=case["factor"],
+                                position_grid_cartesian=case["cartesian"])
+                w2.save_full_grid(p["full_array.npy"])
+                w2.save_volumes(p["volumes.npy"])
+                w2.save_borders_array(p["borders.npz"])
+                w2.save_distances_array(p["distances.npz"])
+                w2.save_adjacency_array(p["adjacency.npz"])
+            for k in ("array", "volumes"):
+                if not np.array_equal(np.asarray(got[k]), want[k]):
+                    msgs.append(f"{k}: the array read earlier changed its values when another grid was saved to the same path")
+            for k in ("borders", "distances", "adjacency"):
+                if sparse_identical(want[k], got[k]):
+                    msgs.append(f"{k}: the matrix read earlier changed when another grid was saved to the same path")
         # the three matrices are written by three different writer methods: each file must hold its own quantity
         if n > 1 and got["borders"].nnz and got["distances"].nnz:
             if got["borders"].shape == got["distances"].shape and np.array_equal(got["borders"].toarray(), got["distances"].toarray()) \
@@ -278,7 +298,7 @@ def run(tier):
         from vlib.core import run_fuzz_campaign
         res.merge(run_fuzz_campaign("C20", runs=160000, shards=16))
     rule = (f"grids: {len(specs)} specifications (rotation grids {b_opts} x direction grids {o_opts} x 1..3 radii x both "
-            f"position modes, four factors) written and read back; energy tables: Hypothesis-generated xvg texts with 0..13 '#' "
+            f"position modes, four factors) written and read back, then a second grid of the same size written to the same paths while the first read results are held; energy tables: Hypothesis-generated xvg texts with 0..13 '#' "
             f"lines, enough '@' lines for >=13 header lines, 1..10 distinct legends (GROMACS names and arbitrary printable "
             f"text without quotes), 1..60 rows of decimals with <=9 mantissa digits and 0..6 decimals in %f/%.10g/%.12g spellings, random padding. Non-trivial = grid with "
             f">1 cell; xvg with >=2 legends, >=2 rows and a header longer than 13 lines; distinct = distinct input.")
